@@ -87,6 +87,8 @@ mutual
     | dot (inner : Simple)                             -- `. file`: the file holds one simple command
     | dotSyn                                           -- `. file`: the file does not parse
     | dotIoErr                                         -- `. file`: the file opens but cannot be read (a directory)
+    | execFail (interactiveOption : Bool)              -- `exec no_such_command`; the value of the `Interactive`
+                                                       -- option travels in the node (`St` has no such field)
   /-- `yash_semantics::command::search::Target`, or no field at all -/
   inductive Target where
     | builtin (ty : BuiltinType) (body : Body)
@@ -157,6 +159,10 @@ mutual
       | r => (s1, s1.status, r)
     | .dotSyn => (s, s.status, handleParserError true true)
     | .dotIoErr => (s, s.status, handleParserError false true)
+    | .execFail i =>
+      -- `exec::main`: `if !env.is_interactive() { result.set_divert(Break(Abort(None))) }`, then the search fails:
+      -- `NOT_FOUND`; `Env::is_interactive` = the option is on and no `Subshell` frame is on the stack
+      (s, NOT_FOUND, if i && !s.stack.contains .subshell then .continue_ else .break_ (.abort none))
 
   /-- the four `execute_*` functions; `wordsStatus` is the exit status `expand_words` returned -/
   def execTarget (fuel : Nat) (s : St) (wordsStatus : Nat) (redirs : Redirs) (assigns : Assigns) : Target → St × Res
@@ -264,7 +270,7 @@ def execStmt (fuel : Nat) (s : St) : Stmt → St × Res
       | .continue_ => execSimple fuel x.1 (probeSimple m)
       | r => (x.1, r)
     let c2 := y.1.applyResult y.2
-    let s1 := { s with status := c2.status, trace := c2.trace }
+    let s1 := { s with status := c2.status, trace := c2.trace, pending := c2.pending }
     (s1, s1.applyErrexit)
   | .grp redirs m =>
     -- `impl Command for syntax::FullCompoundCommand`: `error.handle(&mut env).await?; env.apply_errexit()`
@@ -347,5 +353,14 @@ def runShellSc (interactive : Bool) (fuel : Nat) (s : St) (executed : Bool) (act
   let s1 := x.1.applyResult x.2
   let s2 := if runsExitTrap x.2 then (runExitTrapSc fuel s1 action).1 else s1
   { loopResult := x.2, pre := s1.status, final := s2 }
+
+/-- the shell whose MAIN input cannot be read (`yash <directory>`): the first `command_line()` of
+    `read_eval_loop_impl` returns an `Io` error, `Handle for parser::Error` gives `READ_ERROR`; the error is not
+    recoverable, so the interactive loop ends too; then the tail of `run_as_shell_process` -/
+def readErrorShell (fuel : Nat) (s : St) (action : Option (List Stmt)) : ScOutcome :=
+  let r := handleParserError false false
+  let s1 := s.applyResult r
+  let s2 := if runsExitTrap r then (runExitTrapSc fuel s1 action).1 else s1
+  { loopResult := r, pre := s1.status, final := s2 }
 
 end YashModel.Errexit
